@@ -467,7 +467,10 @@ func (s *State) evalDelete(node ast.Node) object.Object {
 		return s.deleteMapEntry(idxE, index)
 	case token.LBRACKET:
 		// Map/array [] index
-		idxE := node.(*ast.IndexExpression)
+		idxE, ok := node.(*ast.IndexExpression)
+		if !ok { // e.g. del([1,2]): an array literal also starts with [
+			return s.NewError("delete not supported on " + ast.DebugString(node))
+		}
 		index := s.Eval(idxE.Index)
 		if index.Type() == object.ERROR {
 			return index
